@@ -31,6 +31,7 @@ import (
 	"golang.org/x/sync/semaphore"
 
 	"github.com/ollama/ollama/kvcache"
+	"github.com/ollama/ollama/llm"
 	"github.com/ollama/ollama/ml"
 	"github.com/ollama/ollama/model"
 	"github.com/ollama/ollama/model/input"
@@ -447,6 +448,7 @@ type v7Harness struct {
 	live          []*Sequence  // mirror of srv.seqs (kept after removal until drained)
 	prompts       [][]int      // effective prompt of live[i] (after truncation)
 	gen           [][]int      // tokens sampled for live[i]
+	text          []string     // text sent to the client of live[i] so far
 	shiftedSlot   map[int]bool // a context shift happened on this slot since its request was loaded
 	start         time.Time
 	tainted       map[int]bool
@@ -705,6 +707,7 @@ func (h *v7Harness) doReq(e *v7Event) string {
 			h.live[i] = seq
 			h.prompts[i] = prompt
 			h.gen[i] = nil
+			h.text[i] = ""
 			h.shiftedSlot[seq.cache.Id] = false
 			h.swaShifted[seq.cache.Id] = false // CanResume has just re-checked the window
 			h.pastPrompts = append(h.pastPrompts, append([]int(nil), e.prompt...))
@@ -827,6 +830,7 @@ func (h *v7Harness) doStep(e *v7Event) (string, bool) {
 					sb.WriteByte(' ')
 				}
 				firstR = false
+				h.text[i] += r
 				fmt.Fprintf(&sb, "%d:%s", i, r)
 			default:
 				break drain
@@ -841,6 +845,56 @@ func (h *v7Harness) doStep(e *v7Event) (string, bool) {
 	return sb.String(), true
 }
 
+// L2 "the cache record is trimmed when a stop sequence removes generated tokens" (never-shifted requests,
+// evaluated on the real slot and the real client text, independent of the model): when a request ends by EOS or a
+// stop string the slot's record is the effective prompt followed by exactly the generated tokens whose text was
+// returned to the client (every piece is one byte here); when it ends by numPredict the last sampled token was
+// never submitted to Decode.
+func (h *v7Harness) checkStopCut(i int) {
+	sq := h.live[i]
+	rec := v7Toks(sq.cache.Inputs)
+	gen := h.gen[i]
+	var k int
+	switch sq.doneReason {
+	case llm.DoneReasonStop:
+		k = len(h.text[i])
+		if k > len(gen) {
+			h.l2("stop-cut", fmt.Sprintf("request %d: %d bytes of text were returned for %d generated tokens", i, k, len(gen)))
+			return
+		}
+		dec, _ := (&v7Model{h: h}).Decode(v7Int32s(gen[:k]))
+		if dec != h.text[i] {
+			h.l2("stop-cut", fmt.Sprintf("request %d: text returned %q is not the text of the first %d generated tokens %s", i, h.text[i], k, v7Ints(gen)))
+			return
+		}
+		if k < len(gen)-1 || (k == len(gen)-1 && len(gen) > 0 && gen[len(gen)-1] != h.cfg.vocab-1) {
+			h.out.Count("stop_cut_removed_tokens")
+		}
+	case llm.DoneReasonLength:
+		k = len(gen) - 1
+		if k < 0 {
+			k = 0
+		}
+	default:
+		return
+	}
+	want := append(append([]int(nil), h.prompts[i]...), gen[:k]...)
+	if v7Ints(rec) != v7Ints(want) {
+		h.l2("stop-cut", fmt.Sprintf("request %d ended (reason %d) with text %q returned for generated tokens %s: slot %d records %s, the inputs actually kept are %s%s",
+			i, int(sq.doneReason), h.text[i], v7Ints(gen), sq.cache.Id, v7Ints(rec), v7Ints(want), h.taintNote(sq.cache.Id)))
+		return
+	}
+	h.out.Count("stop_cut_checked")
+}
+
+func v7Int32s(xs []int) []int32 {
+	r := make([]int32, len(xs))
+	for i, x := range xs {
+		r[i] = int32(x)
+	}
+	return r
+}
+
 // L2 fresh-equivalence for a finished request that never shifted: the sampled tokens are those a
 // fresh runner (empty cache) produces for the same prompt.
 func (h *v7Harness) finish(i int) {
@@ -849,6 +903,7 @@ func (h *v7Harness) finish(i int) {
 		h.out.Count("req_finished_shifted")
 		return
 	}
+	h.checkStopCut(i)
 	hist := append([]int(nil), h.prompts[i]...)
 	for k, g := range h.gen[i] {
 		var exp []v7Exp
@@ -898,6 +953,7 @@ func v7NewHarness(cfg v7Cfg, out *zzverif.Out) *v7Harness {
 	h.live = make([]*Sequence, cfg.parallel)
 	h.prompts = make([][]int, cfg.parallel)
 	h.gen = make([][]int, cfg.parallel)
+	h.text = make([]string, cfg.parallel)
 	h.start = time.Now()
 	return h
 }
